@@ -422,6 +422,10 @@ def larger_expression_trees(chunk, replay=None):
                     if bool(holds) != bool(direct):
                         bad = bad or f"built inequality ({op}) holds = {bool(holds)} but the direct comparison of {f1(sg)} and {f2(sg)} is {bool(direct)} under {sg}"
                         break
+        if not bad:          # building the comparison (and anything else) must leave its operands as they were
+            for e, f, nm in ((e1, f1, "first"), (e2, f2, "second")):
+                if any(expr_val(e, sg) != f(sg) for sg in sigmas[:4] + sigmas[-4:]):
+                    bad = f"{nm} tree no longer evaluates to its value after it was used in a comparison (operand altered)"
         sizes += 1
         if bad:
             failures.append(dict(clause="big.built_expression_means_what_integer_arithmetic_means", observed=bad, **info))
